@@ -5,7 +5,7 @@ id="$1"; src=/tmp/mut/$id/MUTANT; wt=/tmp/mutc/$id
 export GOFLAGS=-mod=mod GOPROXY=off
 [ -f $src/patch.diff ] || { echo "$id: no patch"; exit 2; }
 mkdir -p /tmp/mutc; git -C /repo worktree remove --force $wt 2>/dev/null; rm -rf $wt
-git -C /repo worktree add -q --detach $wt HEAD || exit 2
+git -C /repo worktree add -q --detach $wt ${MUT_BASE:-HEAD} || exit 2
 mkdir -p $wt/MUTANT && cp -r $src/. $wt/MUTANT/ && rm -f $wt/MUTANT/*.go 2>/dev/null
 cp $src/*.go $wt/MUTANT/ 2>/dev/null
 cd $wt
